@@ -18,6 +18,7 @@ import Sdmmc.Props.C04Main
 import Sdmmc.Props.C05Main
 import Sdmmc.Props.C06Main
 import Sdmmc.Props.C07Main
+import Sdmmc.Props.C07Main2
 import Sdmmc.Props.C08Main
 import Sdmmc.Props.C09Main2
 import Sdmmc.Props.C10Main2
@@ -118,6 +119,8 @@ theorem C06_headline : type_of% @C06Main.C06_main_partial := @C06Main.C06_main_p
 six modes × {missing, file, read-only file, directory, already open}; refused calls change nothing on the medium.
 FULL (`Props/C07Main.lean`). -/
 theorem C07_headline : type_of% @C07Main.C07_main := @C07Main.C07_main
+/-- C07, on reachable states: the decision table with the lookup outcome discharged from C03's invariant. -/
+theorem C07_headline2 : type_of% @C07Main2.C07_main2 := @C07Main2.C07_main2
 
 /-- **C08 — Handles, open-object limits and the re-entrancy lock are enforced exactly.**  Fresh handles are distinct from
 the open ones, stale handles are refused without effect, the three limits hold and the matching too-many error is given,
